@@ -42,3 +42,4 @@ func Itoa(i int) string                           { panic("zzverifrt.Itoa: engin
 func ExistsBegin()                                { panic("zzverifrt.ExistsBegin: engine intrinsic") }
 func ExistsEnd(c bool) bool                       { panic("zzverifrt.ExistsEnd: engine intrinsic") }
 func KnownFinding(id string) bool                 { panic("zzverifrt.KnownFinding: engine intrinsic") }
+func Digest(name string, v int)                   { panic("zzverifrt.Digest: engine intrinsic") }
